@@ -172,6 +172,53 @@ def loo_agop(kobj, x, z, C, T, centred, diag):
     return raw / (raw.max() + JITTER_NORM)
 
 
+def ref_loo_agop(kind, kd, x, z, C, T, centred, diag):
+    """The same quantity with nothing taken from the implementation: the predictor f_l(z) = sum_i C[l,i] k(x_i, z) written out
+    from the documented closed forms in float64 torch (bandwidth = the one the recorded predictor was solved with) and
+    differentiated by reverse-mode autograd, the centers equal to z_j removed.  Returns None when a coordinate of some other
+    center coincides with z_j (the closed form is not differentiable there)."""
+    import torch
+    L, q = float(kd['L']), float(kd['q'])
+    x, z, C = x.double(), z.double(), C.double()
+    T = None if T is None else T.double()
+    tr = (lambda a: a) if T is None else ((lambda a: a * T) if T.dim() == 1 else (lambda a: a @ T))
+
+    def f(zrow, Xk, Ck):
+        if kind == 'light':
+            D = Xk - zrow
+            k = torch.exp(-((tr(D) * D).sum(-1).clamp_min(0) ** (q / 2)) / L ** q)
+        else:
+            A = (tr(Xk) - tr(zrow)).abs()
+            if kind == 'l2':
+                k = torch.exp(-((A ** 2).sum(-1).sqrt() ** q) / L ** q)
+            elif kind == 'prod':
+                k = torch.exp(-(A ** q).sum(-1) / L ** q)
+            elif kind == 'lpq':
+                pn = float(kd['p'])
+                k = torch.exp(-((A ** pn).sum(-1) ** (q / pn)) / L ** q)
+            else:
+                k = ((1.0 - float(kd['cmix'])) * torch.exp(-(A ** q) / L ** q).mean(-1) + float(kd['cmix'])) ** float(kd['power'])
+        return Ck @ k
+
+    co = c04.coincident(x, z)
+    rows = []
+    for j in range(z.shape[0]):
+        keep = torch.nonzero(~co[:, j]).flatten()
+        if len(keep) == 0:
+            rows.append(torch.zeros(C.shape[0], x.shape[1], dtype=torch.float64))
+            continue
+        if kind != 'light' and bool(((tr(x[keep]) - tr(z[j:j + 1])) == 0).any()) and (q < 1 or kind in ('prod', 'lpq', 'sumpower')):
+            return None
+        rows.append(torch.autograd.functional.jacobian(lambda zr: f(zr, x[keep], C[:, keep]), z[j].clone()))
+    G = torch.stack(rows, dim=1).reshape(-1, x.shape[1])
+    if not bool(torch.isfinite(G).all()):
+        return None
+    if centred:
+        G = G - G.mean(dim=0, keepdim=True)
+    raw = (G ** 2).sum(dim=0) if diag else G.T @ G
+    return raw / (raw.max() + JITTER_NORM)
+
+
 def execute_case(p, drv):
     import torch
     res = {'family': p['family'], 'params': p, 'disagreements': [], 'failures': []}
@@ -231,6 +278,17 @@ def execute_case(p, drv):
                                         f'{label}: M differs from the normalised sum of gradient outer products of the recorded '
                                         f'predictor (own kernel term removed): max |diff| {float(eo.max()):.3e}, allowance '
                                         f'{float(allow.max()):.3e}'})
+            # ... and with the gradients taken by autograd of the documented closed form instead of the library's own routine
+            Mr = ref_loo_agop(kind, kd, x, z, C, T, call['center_grads'], bool(p['diag'])) if t < 2 else None
+            if Mr is not None:
+                if use_sqrtM and not p['diag']:
+                    Mr = Mr + JITTER_SVD * torch.eye(d, dtype=torch.float64)
+                er = (call['M'].double() - Mr).abs()
+                if bool((er > allow + 1e-8).any()):
+                    res['failures'].append({'signature': 'C14:M-not-agop-of-the-predictor', 'detail':
+                                            f'{label}: M differs from the normalised AGOP of f(z) = sum_i alpha_i k(x_i, z) differentiated by autograd '
+                                            f'(closed-form kernel, bandwidth {kd["L"]} of the recorded predictor, own term removed): max |diff| '
+                                            f'{float(er.max()):.3e}, allowance {float(allow.max()):.3e}'})
         err = (call['M'] - Mm).abs()
         r = float((err / allow).max())
         worst_corr = max(worst_corr, r)
